@@ -3,3 +3,5 @@ CHECK_DEADLOCK FALSE
 POSTCONDITION Accepted
 INVARIANT C17_NoPanic
 INVARIANT C17_Selection
+INVARIANT C17_NoHang
+INVARIANT KF_C17
